@@ -1009,7 +1009,7 @@ TARGETS = {
         ('exactly_lib.type_val_deps.types.path.rel_opts_configuration', 'RELATIVITY_VARIANTS_FOR_FILE_CREATION'),
         ('exactly_lib.type_val_deps.types.path.rel_opts_configuration', 'REL_OPTIONS_FOR_FILE_CREATION'),
         ('exactly_lib.type_val_deps.types.path.rel_opts_configuration', '.accepted_relativity_variants'),
-        ('exactly_lib.type_val_deps.types.path.rel_opts_configuration', '.default_option')]),
+        ('exactly_lib.type_val_deps.types.path.rel_opts_configuration', '.default_option')] + [('exactly_lib.tcfs.sds', q) for q in ('SUB_DIRECTORY__ACT', 'SUB_DIRECTORY__TMP_USER', 'SUB_DIRECTORY__RESULT')]),
     'ExecSteps': dict(prop='C01', world=[_TR + 'svh', _TR + 'sh', _TR + 'pfh', 'exactly_lib.execution.impl.single_instruction_executor'], roots=[
         ('exactly_lib.execution.impl.phase_step_executors', q) for q in ('_from_success_or_validation_error_or_hard_error',
                                                                         '_from_success_or_hard_error', '_from_pass_or_fail_or_hard_error')] + [
@@ -1033,7 +1033,7 @@ TARGETS = {
         ('exactly_lib.test_case.phases.setup.settings_builder', 'SetupSettingsBuilder.new_empty'),
         ('exactly_lib.test_case.phases.setup.settings_builder', '.environ'),
         (_EN + 'impl', 'Phase'), (_EN + 'impl', 'TheInstructionEmbryo'), (_EN + 'impl', 'TheInstructionEmbryo._resolve_applier'),
-        (_EN + 'impl', 'TheInstructionEmbryo._resolve_applier_factory')]),
+        (_EN + 'impl', 'TheInstructionEmbryo._resolve_applier_factory')] + [('exactly_lib.tcfs.sds', q) for q in ('SUB_DIRECTORY__ACT', 'SUB_DIRECTORY__TMP_USER', 'SUB_DIRECTORY__RESULT')]),
     'ActSource': dict(prop='C07', world=[], roots=[('exactly_lib.processing.parse.act_phase_source_parser', '_un_escape_at_beginning_of_line')]),
     'Timeout': dict(prop='C19', world=[], roots=[('exactly_lib.definitions.os_proc_env', 'TIMEOUT__DEFAULT')]),
 }
